@@ -43,7 +43,7 @@ def _src_roots(schema):
 
 def cases(rng, tier):
     n = 70 if tier == 'quick' else 1200
-    fns = L.user_fns(L.FN_NAMES)
+    fns = L.spec_fns(L.FN_NAMES)
     for _ in range(n):
         schema = L.gen_schema(rng, signing=True)
         roots = _src_roots(schema)
